@@ -31,6 +31,15 @@ CLAIMED = {
             "round trip between create_manifest_file and read_manifest_file (T-codec). Mixed int/float pairs are proved under "
             "|int| <= 2^53 (pyarrow raises beyond). Bounded: none for SOUND; ID-MAP/BOUNDS are unbounded via accumulator rule.",
             "DESIGN.md 4/C13"),
+    "C12": ("Proof of parse_filter_dict/_parse_op against an independent operator-spelling table (every dict entry shape, "
+            "unbounded number of entries), of _build_condition against SQL three-valued semantics by symbolic evaluation of the "
+            "built expression at an arbitrary row under T-arrow's Kleene algebra (all 10 operators x int/float/str/bool, NULL and "
+            "NaN rows, NULL literals, IN/NOT IN lists of unbounded length with NULL members), and of the Kleene conjunction "
+            "invariant of to_pyarrow_compute_expression. The 'identically in every scan API' part (single engine E used by all "
+            "read paths, projection after filtering) is covered by the ENGINE units when present in the evidence.",
+            "Trusted: T-arrow Kleene/is_in/is_valid semantics and Table.filter (assumed, sampled by replay scripts), str.lower as an "
+            "uninterpreted function shared by code and specification, dict iteration order.",
+            "DESIGN.md 4/C12"),
 }
 
 NA_REASON = {
